@@ -250,7 +250,7 @@ func checkC14(c ConcatCase) Verdict {
 
 var propC14 = &Prop[ConcatCase]{
 	ID:   "C14",
-	Rule: "two or three label-free, position-independent statement sequences (instruction forms of C01, memory forms of C02, data directives, RESB, INT, far JMP, uses of shared EQU names (numbers, and names standing for a register, a string or a memory operand) alone and inside expressions, memory operands, data directives and RESB; no $, ALIGNB, labels, relative branches) under one mode header (one case in four: a [BITS n] directive in front of some parts, so the mode in force changes between them); oracle: the whole is diagnosed only if some part alone is, and out(H;A;B;C) = out(H;A) || out(H;B) || out(H;C), every part assembled alone under the mode in force for it, and for one case in fifty (with parts of 6..14 statements) also = the parts assembled by the gosk binary, one fresh process each; non-trivial = at least two non-empty parts with statements of different form classes; distinct by source text",
+	Rule: "two or three label-free, position-independent statement sequences (instruction forms of C01, memory forms of C02, data directives, RESB, INT, far JMP, uses of shared EQU names (numbers, names derived from other names and written before or after them, and names standing for a register, a string or a memory operand) alone and inside expressions, memory operands, data directives and RESB; no $, ALIGNB, labels, relative branches) under one mode header (one case in four: a [BITS n] directive in front of some parts, so the mode in force changes between them); oracle: the whole is diagnosed only if some part alone is, and out(H;A;B;C) = out(H;A) || out(H;B) || out(H;C), every part assembled alone under the mode in force for it, and for one case in fifty (with parts of 6..14 statements) also = the parts assembled by the gosk binary, one fresh process each; non-trivial = at least two non-empty parts with statements of different form classes; distinct by source text",
 	Gen: func(t *rapid.T) ConcatCase {
 		c := ConcatCase{Mode: rapid.SampledFrom([]int{0, 16, 32}).Draw(t, "mode")}
 		used := map[string]bool{}
@@ -261,6 +261,19 @@ var propC14 = &Prop[ConcatCase]{
 				body = rapid.SampledFrom([]string{"BX", "AL", "ECX", "SI", "DH", "EAX", "\"ab\"", "\"x, y\"", "[BX]", "[0x1234]", "[ESI+4]"}).Draw(t, "equaliasb")
 			}
 			c.Equs = append(c.Equs, [2]string{genName(t, "equn", used), body})
+		}
+		// derived names: a body over another name, written before or after that name's own definition, and
+		// possibly never used (a definition that is only looked at must not change what later statements get)
+		if n := len(c.Equs); n > 0 && rapid.IntRange(0, 2).Draw(t, "derived") == 0 {
+			for k := rapid.IntRange(1, 3).Draw(t, "nderived"); k > 0; k-- {
+				base := c.Equs[rapid.IntRange(0, n-1).Draw(t, "dbase")]
+				if sem.RegBits(base[1]) != 0 || strings.HasPrefix(base[1], "\"") || strings.HasPrefix(base[1], "[") {
+					continue
+				}
+				d := [2]string{genName(t, "dname", used), fmt.Sprintf(rapid.SampledFrom([]string{"%s+1", "%s*2", "%s-3", "2+%s", "(%s+1)*2"}).Draw(t, "dform"), base[0])}
+				at := rapid.IntRange(0, len(c.Equs)).Draw(t, "dat")
+				c.Equs = append(c.Equs[:at], append([][2]string{d}, c.Equs[at:]...)...)
+			}
 		}
 		// a fresh process costs ~0.2 s: one case in fifty, with longer parts
 		c.Fresh = rapid.IntRange(0, 49).Draw(t, "fresh") == 23 // an interior value: rapid favours the ends of a range
